@@ -18,6 +18,7 @@ META = {
 }
 SPECDIR = SPECS / "iset"
 NONE = 1000000
+ODD_ITEM = 2999
 CONCS = {"int": lambda i: i, "str": lambda i: "i%05d" % i, "tuple": lambda i: (i, "x")}
 
 
@@ -30,7 +31,9 @@ class Driver(GenericAdapter):
 
     def __init__(self, conc, U):
         self.name = conc
-        self.K = CONCS[conc]
+        base_k = CONCS[conc]
+        # item 2999 is of another type than all the others (it cannot be ordered against them): with it present sort() fails
+        self.K = lambda i: frozenset(["odd-one-out"]) if i == ODD_ITEM else base_k(i)
         self.U = U
         self._tab = {self.K(i): i for i in range(1, 3000)}
         from boltons.setutils import IndexedSet
@@ -130,7 +133,7 @@ class Driver(GenericAdapter):
                 v = [dec(s.pop() if x == NONE else s.pop(x))]
             elif n == "clear":
                 s.clear()
-            elif n == "sort":
+            elif n in ("sort", "sort_failing"):
                 s.sort()
             elif n == "reverse":
                 s.reverse()
@@ -354,6 +357,12 @@ def record(ntraces, length, seed, nitems):
                     op = {"op": k, "x": 0, "ops": [[rng.randint(1, nitems) for _ in range(rng.randint(0, 4))] for _ in range(rng.randint(1, 2))]}
             else:
                 op = {"op": rng.choice(["sort", "reverse", "clear"] if rng.random() < 0.2 else ["reverse", "sort"]), "x": 0, "ops": []}
+            if not queue and rng.random() < 0.02 and n >= 3:
+                op = {"op": "add", "x": ODD_ITEM, "ops": []}
+                queue.append({"op": "sort", "x": 0, "ops": []})
+                queue.append({"op": rng.choice(["remove", "discard"]), "x": ODD_ITEM, "ops": []})
+            if op["op"] == "sort" and K(ODD_ITEM) in s and len(s) > 1:
+                op = {"op": "sort_failing", "x": 0, "ops": []}      # the comparison raises: TypeError, and the set stays a set
             pure = False
             if not queue and rng.random() < 0.07:
                 # operations that build a new set or only answer a question, on the object as it is now (holes and all):
@@ -381,7 +390,7 @@ def record(ntraces, length, seed, nitems):
             s_before = s
             s, got = drv.step(s, op, variant, args=args)
             ev = {"op": op, "variant": variant or "", "r": got["r"], "fork": False, "hastwin": False, "twin": dict(EMPTY_READS), "pure": pure}
-            ev.update(reads(s, rng, drv, nitems, last_added, pure or i % 40 == 39 or i == length - 1))
+            ev.update(reads(s, rng, drv, nitems, last_added, pure or op["op"] == "sort_failing" or i % 40 == 39 or i == length - 1))
             if pure:
                 s = s_before
             # a second object made from this one (constructor, from_iterable, full slice, operator) must stay what it
